@@ -12,6 +12,7 @@ CONSTANTS
   TxNoLock = TRUE
   WalGuard = TRUE
   WalOwnerTest = FALSE
+  FlushAll = FALSE
   Exclude = {}
   Gated = FALSE
   EmitEdges = FALSE
